@@ -751,6 +751,10 @@ func (sa *Application) UpdateAllocationResources(alloc *Allocation, isQuotaPreem
 			sa.allocatedResource.Prune()
 		}
 		sa.queue.IncAllocatedResource(delta, isQuotaPreemptionEnabled)
+		// a victim that waits for its release is tracked as preempting with its size: keep that in step
+		if existing.IsPreempted() {
+			sa.queue.IncPreemptingResource(delta)
+		}
 
 		// update user usage
 		sa.incUserResourceUsage(delta)
